@@ -484,7 +484,7 @@ var initProf = os.Getenv("SYMGO_INITPROF") != ""
 
 var skipInit = map[string]bool{"errors": true, "strings": true, "bytes": true, "sort": true, "strconv": true, "math": true, "math/bits": true,
 	"slices": true, "cmp": true, "github.com/pkg/errors": true, "internal/bytealg": true, "internal/stringslite": true, "internal/itoa": true,
-	"encoding/binary": true, "github.com/go-jose/go-jose/v3/json": true, "github.com/go-jose/go-jose/v3/cipher": true, "unicode/utf8": true, "unicode/utf16": true, "unicode": true, "container/list": true}
+	"encoding/binary": true, "github.com/go-jose/go-jose/v3/json": true, "github.com/trustbloc/did-go/doc/did": true, "github.com/trustbloc/did-go/vdr/api": true, "github.com/go-jose/go-jose/v3/cipher": true, "unicode/utf8": true, "unicode/utf16": true, "unicode": true, "container/list": true}
 
 // ensureInit runs the package initialiser of executed packages (once per path).
 func (in *Interp) ensureInit(p *ssa.Package) {
@@ -605,7 +605,7 @@ func (in *Interp) callSSA(caller *frame, pos token.Pos, fn *ssa.Function, args [
 	}
 	in.depth++
 	if in.depth > maxDepth {
-		panic(targetPanic{Msg: "unbounded recursion (stack exhaustion): depth > 400 in " + fn.String()})
+		panic(targetPanic{Msg: "unbounded recursion (stack exhaustion): depth > 400 in " + fn.String(), Fatal: true})
 	}
 	defer func() { in.depth-- }()
 	in.funcsSeen[fn] = true
@@ -642,7 +642,7 @@ func (in *Interp) callSSA(caller *frame, pos token.Pos, fn *ssa.Function, args [
 			in.errWhere = fr.fn.String()
 		}
 		tp, isTarget := escaped.(targetPanic)
-		if !isTarget || len(fr.defers) == 0 {
+		if !isTarget || len(fr.defers) == 0 || tp.Fatal {
 			panic(escaped)
 		}
 		ps := &panicState{val: tp}
@@ -907,10 +907,16 @@ func (in *Interp) visit(fr *frame, instr ssa.Instruction) bool {
 func (in *Interp) makeLen(t *Term) int {
 	t = toW(t, 64, true)
 	if t.Const {
+		if t.Int() > 1<<30 {
+			panic(targetPanic{Msg: "makeslice: allocation size controlled by the input (out of memory)", Fatal: true})
+		}
 		return int(t.Int())
 	}
 	t = in.share(t)
-	in.panicIf(Or(SLt(t, BVu(64, 0)), SLt(BVu(64, 1<<26), t)), "makeslice: allocation size controlled by the input (len out of range / out of memory)")
+	in.panicIf(SLt(t, BVu(64, 0)), "makeslice: len out of range")
+	if in.branch(SLt(BVu(64, 1<<30), t)) {
+		panic(targetPanic{Msg: "makeslice: allocation size controlled by the input (out of memory)", Fatal: true})
+	}
 	const lim = 128
 	conds := make([]*Term, lim+2)
 	for i := 0; i <= lim; i++ {
